@@ -95,6 +95,7 @@ func (p *Prog) verifyFunction(fn *ssa.Function, con *Contract) (res *FnResult) {
 	for _, o := range res.Obls {
 		o.Query = res.Header + o.Query
 		o.HeapSorts = S.heapSort
+		o.Tags = S.tags
 		for _, ch := range o.Children {
 			ch.Query = res.Header + ch.Query
 			ch.HeapSorts = S.heapSort
